@@ -50,7 +50,26 @@ def gen_bound_script(rng):
         L.append('W %s 5 - %d %d' % ((seed).to_bytes(4, 'big').hex(), ln, seed))
     for _ in range(rng.randrange(0, 3)):
         w(rng.choice([5, 100, 300]))
-    mode = rng.choice(['failsync', 'inflight', 'both', 'slowappend', 'slowappend'])
+    mode = rng.choice(['failsync', 'inflight', 'both', 'slowappend', 'slowappend', 'restore'])
+    if mode == 'restore':
+        # deletion records pile up un-synced in the last CLOSED blob (they wait for the deferred index dump), then that
+        # blob is made the active blob again: its un-synced bytes are the active blob's now (finding F30, repaired)
+        nk = lim // 60 + 3
+        ks = [(i + 100).to_bytes(4, 'big').hex() for i in range(nk)]
+        for k in ks:
+            seed += 1
+            L.append('W %s 5 - 5 %d' % (k, seed))
+        L.append('close_active')
+        L.append('autoquiesce 0')
+        for k in ks:
+            L.append('D %s 9 - 1' % k)
+        L.append(rng.choice(['restore_active', 'restore_active', 'bg_restore']))
+        L.append('sleep 50')
+        L.append('autoquiesce 1')
+        L.append('quiesce')
+        L.append('#BOUND')
+        L.append('truedirty')
+        L.append('dirty')
     if mode == 'slowappend':
         # the mirror image of `inflight`: an APPEND that has reserved its range is held back while a sync runs to
         # completion. The bytes that land after that sync
@@ -83,7 +102,14 @@ def gen_bound_script(rng):
         L.append('fail sync .blob 0 delay:%d' % rng.choice([150, 300]))
         w(lim * 2)
         L.append('sleep 60')       # the sync is now inside its delay: what it covers was fixed before the next write starts
-        w(lim * 3)
+        if rng.random() < 0.5:
+            w(lim * 3)
+        else:
+            # an explicit fsyncdata while the background sync is in flight: it must not lean on that sync, which does not
+            # cover the record acknowledged in between
+            w(rng.choice([5, 100, lim // 2]))
+            L.append('fsync')
+            L.append('dirty')
         L.append('sleep 600')
         L.append('clearfail')
         L.append('autoquiesce 1')
@@ -175,7 +201,7 @@ def oracle(lines, io, spec=None):
             prev = lines[i - 1].split()[0] if i else ''
             prev2 = lines[i - 2].split()[0] if i > 1 else ''
             if prev == 'fsync' and io[i - 1] == 'fsync ok' and d != 0:
-                fails.append('[F8] line %d: %d un-synced bytes remain after an explicit fsyncdata (limit %d)' % (i, d, limit))
+                fails.append('line %d: %d un-synced bytes remain after an explicit fsyncdata (limit %d)' % (i, d, limit))
             elif d > limit:
                 fails.append('line %d after `%s`: %d un-synced bytes exceed the limit %d with no sync pending' % (i, last_op, d, limit))
         elif l == 'truedirty_all' and o.startswith('truedirty_all') and i >= 2 and lines[i - 1].startswith('nop closed=') and \
